@@ -1,9 +1,9 @@
 #!/bin/bash
 # usage: tools/confirm_seed.sh <Cxx> <A|B>   — confirms a seeded change in a scratch worktree and files it under /verif/seeded
 ID=$1; AB=$2
-SRC=/tmp/seed/out/$ID/$AB
-DST=/verif/seeded/$ID-$AB
-WT=/tmp/confirm-$ID-$AB
+SRC=${SEEDROOT:-/tmp/seed/out}/$ID/$AB
+DST=/verif/seeded/${PREFIX:-}$ID-$AB
+WT=/tmp/confirm-${PREFIX:-}$ID-$AB
 [ -f $SRC/patch.diff ] || { echo "no patch for $ID $AB"; exit 2; }
 git -C /repo worktree add -q --detach $WT HEAD || exit 2
 cleanup() { git -C /repo worktree remove --force $WT 2>/dev/null; rm -rf $WT; }
@@ -22,16 +22,16 @@ if [ $OK = yes ]; then
   mkdir -p $DST
   cp $SRC/patch.diff $SRC/demo.py $DST/
   [ -f $SRC/notes.md ] && cp $SRC/notes.md $DST/notes.md
-  /venv/bin/python - "$ID" "$AB" "$P" "$C" "$T1" "$T2" <<'PY'
+  /venv/bin/python - "$ID" "$AB" "$P" "$C" "$T1" "$T2" "${PREFIX:-}" <<'PY'
 import json, sys, re
-ID, AB, P, C, T1, T2 = sys.argv[1:7]
-notes = open(f"/verif/seeded/{ID}-{AB}/notes.md").read() if __import__('os').path.exists(f"/verif/seeded/{ID}-{AB}/notes.md") else ""
+ID, AB, P, C, T1, T2, PFX = sys.argv[1:8]
+notes = open(f"/verif/seeded/{PFX}{ID}-{AB}/notes.md").read() if __import__('os').path.exists(f"/verif/seeded/{PFX}{ID}-{AB}/notes.md") else ""
 meta = {"property": ID, "variant": AB, "origin": "independent sub-agent given only the property record and a scratch worktree",
         "needs_to_manifest": "see notes.md (section on trigger)",
         "what_i_ran": [f"scratch worktree of /repo HEAD; demo.py on pristine tree -> exit {P}",
                        f"git apply patch.diff; demo.py -> exit {C}",
                        f"full test suite with the change (pytest -n 4, test_save_load serially): {T1} ; {T2}"],
         "confirmed": True}
-json.dump(meta, open(f"/verif/seeded/{ID}-{AB}/meta.json", "w"), indent=1)
+json.dump(meta, open(f"/verif/seeded/{PFX}{ID}-{AB}/meta.json", "w"), indent=1)
 PY
 fi
